@@ -37,13 +37,14 @@ ALPHABET = (
     + [("sys_propagate", i) for i in range(len(SYSPROPS))]
     + [("set_corr_config", 0), ("set_corr_config", 1)]
     + [("load_inplace_other", 0), ("load_inplace_other", 1)]
+    + [("set_cont_config", 0), ("set_cont_config", 1)]
 )
 WEIGHTS = {"set_period": 1.2, "correct": 1.0, "set_opts": 0.5, "correct_default": 1.0, "read": 1.0, "propagate": 1.0, "trajectory": 3.0,
-           "bad_period": 1.0, "set_amp": 0.7, "save_load": 0.25, "load_inplace": 0.15, "save_fault": 0.5, "save_torn_load": 0.3, "generate": 0.35, "sys_propagate": 0.9, "set_corr_config": 0.8, "load_inplace_other": 0.4}
+           "bad_period": 1.0, "set_amp": 0.7, "save_load": 0.25, "load_inplace": 0.15, "save_fault": 0.5, "save_torn_load": 0.3, "generate": 0.35, "sys_propagate": 0.9, "set_corr_config": 0.8, "load_inplace_other": 0.4, "set_cont_config": 0.5}
 REDUCED = [("set_period", "x1.1"), ("set_period", "none"), ("correct", 0, 0), ("correct", 1, 1), ("set_opts", 1), ("set_corr_config", 1), ("correct_default",),
            ("read", "period"), ("read", "monodromy"), ("read", "stability_indices"), ("propagate", 0), ("propagate", 1), ("propagate", 3), ("trajectory",),
            ("bad_period",), ("save_fault", "enospc")]
-MUTATORS = {"set_period", "correct", "set_opts", "correct_default", "set_amp", "save_load", "load_inplace", "set_corr_config", "load_inplace_other"}
+MUTATORS = {"set_period", "correct", "set_opts", "correct_default", "set_amp", "save_load", "load_inplace", "set_corr_config", "load_inplace_other", "set_cont_config"}
 INTEGRATING = {"correct", "correct_default", "propagate", "generate", "sys_propagate"}
 INTEGRATING_READS = {"monodromy", "stability_indices", "eigenvalues", "is_stable"}
 
@@ -70,6 +71,15 @@ def _alt_config(o, variant):
         return base_cfg
     alt = {"halo": (S.Z, S.VY), "lyapunov": (S.X, S.VZ), "vertical": (S.X, S.VY)}[o.family if o.family in ("halo", "lyapunov") else "vertical"]
     return dataclasses.replace(base_cfg, control_indices=alt)
+
+
+def _alt_cont_config(o, variant):
+    """The family's default continuation configuration (variant 0) or the same with the other stepper (variant 1)."""
+    import dataclasses
+    base_cfg = type(o)(o.libration_point, initial_state=np.array(o.initial_state, float)).continuation_config   # a fresh object's default
+    if variant == 0:
+        return base_cfg
+    return dataclasses.replace(base_cfg, stepper="secant" if base_cfg.stepper == "natural" else "natural")
 
 
 def _merge_opts(o, tol, ma):
@@ -106,8 +116,8 @@ def warmup(U, tier):
 def new_model(spec_i, corrected: bool = False):
     s = SPECS[spec_i]
     if corrected:   # an orbit object constructed from a converged state, with its period set
-        return {"spec": spec_i, "x": s["xs"].copy(), "T": s["T0"], "amp": None, "opts": None, "lastprop": None, "cfgvar": 0}
-    return {"spec": spec_i, "x": s["x0"].copy(), "T": None, "amp": None, "opts": None, "lastprop": None, "cfgvar": 0}
+        return {"spec": spec_i, "x": s["xs"].copy(), "T": s["T0"], "amp": None, "opts": None, "lastprop": None, "cfgvar": 0, "ccfg": 0}
+    return {"spec": spec_i, "x": s["x0"].copy(), "T": None, "amp": None, "opts": None, "lastprop": None, "cfgvar": 0, "ccfg": 0}
 
 
 def build(model, lp):
@@ -122,6 +132,8 @@ def build(model, lp):
         o.correction_options = _merge_opts(o, *model["opts"])
     if model.get("cfgvar"):
         o.correction_config = _alt_config(o, model["cfgvar"])
+    if model.get("ccfg"):
+        o.continuation_config = _alt_cont_config(o, model["ccfg"])
     return o
 
 
@@ -198,6 +210,9 @@ def apply(o, op, model):
     if k == "set_corr_config":
         o.correction_config = _alt_config(o, op[1])
         return None
+    if k == "set_cont_config":
+        o.continuation_config = _alt_cont_config(o, op[1])
+        return None
     if k == "read":
         return read(o, op[1])
     if k == "propagate":
@@ -218,6 +233,8 @@ def model_after(model, op, rb):
         new["opts"] = (TOLS[op[1]], ATTEMPTS[0])
     if op[0] == "set_corr_config":
         new["cfgvar"] = op[1]
+    if op[0] == "set_cont_config":
+        new["ccfg"] = op[1]
     if changed:
         new["lastprop"] = None
     return new
@@ -427,18 +444,18 @@ def step(ctx, U, ob, j, op, hist):
     # ---------------- ordinary operations: real vs fresh twin
     if k == "propagate" and model["T"] is None:
         pass  # both must raise
-    exp = twin_memo(("orbit-op", model["spec"], model["x"], model["T"], model["amp"], model["opts"], model.get("cfgvar", 0), op),
+    exp = twin_memo(("orbit-op", model["spec"], model["x"], model["T"], model["amp"], model["opts"], model.get("cfgvar", 0), model.get("ccfg", 0), op),
                     lambda: _twin_apply(model, op, U))
     t_out, t_rb = exp
     r_out = attempt(lambda: apply(real, op, model))
     log.add("op", entry, r_out.kind(), digest(r_out.value) if not r_out.failed else None)
-    if r_out.failed != t_out.failed and ob["reloaded"] and (model["opts"] is not None or model.get("cfgvar")) \
+    if r_out.failed != t_out.failed and ob["reloaded"] and (model["opts"] is not None or model.get("cfgvar") or model.get("ccfg")) \
             and k in ("correct_default", "correct", "generate") and known_active("C20-K3-user-set-correction-options-lost-by-save-load"):
-        m2 = dict(model, opts=None, cfgvar=0)
-        alt_out, alt_rb = twin_memo(("orbit-op", m2["spec"], m2["x"], m2["T"], m2["amp"], None, 0, op), lambda: _twin_apply(m2, op, U))
+        m2 = dict(model, opts=None, cfgvar=0, ccfg=0)
+        alt_out, alt_rb = twin_memo(("orbit-op", m2["spec"], m2["x"], m2["T"], m2["amp"], None, 0, 0, op), lambda: _twin_apply(m2, op, U))
         if alt_out.failed == r_out.failed and (r_out.failed or eq(r_out.value, alt_out.value)):
             ctx.note_known("C20-K3-user-set-correction-options-lost-by-save-load")
-            model["opts"], model["cfgvar"] = None, 0
+            model["opts"], model["cfgvar"], model["ccfg"] = None, 0, 0
             t_out, t_rb = alt_out, alt_rb
     if r_out.failed != t_out.failed:
         raise Violation(f"C20/orbit/outcome-{k}", f"operation {op} on the long-lived object: {r_out.kind()} ({r_out.exc}); on a fresh twin in the same "
@@ -447,15 +464,16 @@ def step(ctx, U, ob, j, op, hist):
         ctx.probe("failed_op_then_continue")
         ctx.fault("op_failed_" + type(r_out.exc).__name__)
     elif not eq(r_out.value, t_out.value) and (k in ("correct_default", "correct", "generate") or op == ("read", "corr_tol")) and ob["reloaded"] \
-            and (model["opts"] is not None or model.get("cfgvar")) \
+            and (model["opts"] is not None or model.get("cfgvar") or model.get("ccfg")) \
             and known_active("C20-K3-user-set-correction-options-lost-by-save-load"):
         # K3: exactly what a fresh orbit WITHOUT the user-set options computes
-        m2 = dict(model, opts=None, cfgvar=0)   # what the reloaded object is: services rebuilt with the family defaults
-        alt_out, alt_rb = twin_memo(("orbit-op", m2["spec"], m2["x"], m2["T"], m2["amp"], None, m2.get("cfgvar", 0), op), lambda: _twin_apply(m2, op, U))
+        m2 = dict(model, opts=None, cfgvar=0, ccfg=0)   # what the reloaded object is: services rebuilt with the family defaults
+        alt_out, alt_rb = twin_memo(("orbit-op", m2["spec"], m2["x"], m2["T"], m2["amp"], None, 0, 0, op), lambda: _twin_apply(m2, op, U))
         if not alt_out.failed and eq(r_out.value, alt_out.value):
             ctx.note_known("C20-K3-user-set-correction-options-lost-by-save-load")
             model["opts"] = None
             model["cfgvar"] = 0
+            model["ccfg"] = 0
             t_rb = alt_rb
         else:
             raise Violation(f"C20/orbit/value-{k}", f"{op} returned {_first_diff(r_out.value, t_out.value)} | history: {hist}")
@@ -512,6 +530,9 @@ CORE3 = [("set_period", "x1.1"), ("correct", 0, 0), ("read", "monodromy"), ("rea
 CORE3B = [("correct", 1, 1), ("correct", 0, 0), ("set_corr_config", 1), ("set_opts", 1), ("correct_default",), ("read", "period")]
 
 
+GEN_HISTORIES = [[("generate", 0), ("set_cont_config", 1), ("generate", 0)],
+                 [("set_cont_config", 1), ("generate", 0), ("set_cont_config", 0), ("generate", 0)],
+                 [("generate", 0), ("set_cont_config", 1), ("generate", 1), ("generate", 0)]]
 LOAD3 = ([("propagate", 0), ("read", "stability_indices")], [("load_inplace_other", 0), ("load_inplace_other", 1)],
          [("trajectory",), ("read", "period"), ("read", "stability_indices"), ("read", "eigenvalues")])
 
@@ -529,6 +550,8 @@ def enumeration(max_len: int):
             for b in LOAD3[1]:
                 for c in LOAD3[2]:
                     yield [0, 0, 0, 1] + [ALPHABET.index(o) + 1 for o in (a, b, c)] + [0]   # compute; load another orbit's file in place; re-read
+        for seq in GEN_HISTORIES:
+            yield [0, 0, 0, 1] + [ALPHABET.index(o) + 1 for o in seq] + [0]   # families before and after a change of the continuation configuration
         coreb = [ALPHABET.index(op) + 1 for op in CORE3B]
         for seq in itertools.product(coreb, repeat=3):
             yield [0, 0, 1, 0] + list(seq) + [0]     # on a Lyapunov orbit that starts at the analytic guess: corrections have real work to do
